@@ -179,6 +179,13 @@ func RunC09(tier string) int {
 	} else {
 		run.Infra(err.Error())
 	}
+	// process level: the keys the real binary writes must not depend on declaration order
+	if st, err := e1.Prepare(run, false); err == nil {
+		e1.DeclOrderPart(run, st, tierN(tier, 24, 300))
+		st.Cleanup()
+	} else {
+		run.Infra(err.Error())
+	}
 	for k, v := range classes {
 		run.Count("class:"+k, v)
 		run.Nontrivial(k)
